@@ -120,21 +120,16 @@ def gen_proofs(ctx):
 
 
 # ------------------------------------------------------------------ executions of the real binary
-def _run(ctx):
-    if "execs" in _cache:
-        return _cache
-    rng = random.Random(ctx.seed)
-    binary = ctx.repo_bin("src/hermes2go", "hermes2go")
-    ex = B.setup_examples(ctx)
-    pool = dict(B.VALID); pool["bad"] = B.FAILING["unknown-soil-id"]
+def _round(ctx, j, rng, binary, rbin, ex, pool):
     keys = list(B.VALID)
     rng.shuffle(keys)
     nlines = 11
     if ctx.thorough:
-        pool.update(B.LONG); keys += list(B.LONG); nlines = 18
+        keys += list(B.LONG); rng.shuffle(keys); nlines = 14 + 2 * (j % 3)
     batch = keys[:nlines] + ["bad"] + [keys[0], keys[1]]      # two repeated lines
     rng.shuffle(batch)
-    ref = B.run_batch(binary, ex, "ref", batch, pool, 1, 4)
+    pre = "r%d_" % j
+    ref = B.run_batch(binary, ex, pre + "ref", batch, pool, 1, 4)
     execs, jobs = [ref], []
     k = 0
     for c in CONC:
@@ -145,62 +140,85 @@ def _run(ctx):
             if k % 2 == 1 or c == 1:
                 rng.shuffle(order)
             k += 1
-            jobs.append(lambda c=c, g=g, order=order: B.run_batch(binary, ex, "c%d_g%d" % (c, g), order, pool, c, g))
+            jobs.append(lambda c=c, g=g, order=order: B.run_batch(binary, ex, pre + "c%d_g%d" % (c, g), order, pool, c, g))
     n = len(batch)
     a = rng.randint(2, n // 2); b_ = rng.randint(a, n - 1)
     for tag, opt, c in (("win1", "%d-%d" % (a, b_), 2), ("win2", "%d" % rng.randint(1, n - 1), 3),
                         ("win3", "%d-end" % rng.randint(2, n), 8)):
-        jobs.append(lambda tag=tag, opt=opt, c=c: B.run_batch(binary, ex, tag, batch, pool, c, 4, lines_opt=opt))
+        jobs.append(lambda tag=tag, opt=opt, c=c: B.run_batch(binary, ex, pre + tag, batch, pool, c, 4, lines_opt=opt))
     execs += B.parallel(jobs, 4)
-    # race-detector executions (supporting evidence)
     races = []
-    try:
-        rbin = ctx.repo_bin("src/hermes2go", "hermes2go", race=True)
+    if rbin:   # race-detector executions (supporting evidence)
         rbatch = batch if ctx.thorough else batch[:6] + [batch[0]]
         rconc = (2, 3, 8, 16) if ctx.thorough else (3, 8)
-        rjobs = [lambda c=c: B.run_batch(rbin, ex, "race_c%d" % c, rbatch, pool, c, 4, timeout=900,
+        rjobs = [lambda c=c: B.run_batch(rbin, ex, pre + "race_c%d" % c, rbatch, pool, c, 4, timeout=900,
                                          extra_env={"GORACE": "halt_on_error=0"}) for c in rconc]
-        races = B.parallel(rjobs, 2)
+        races = B.parallel(rjobs, 2 if ctx.thorough else 2)
+    for e in execs[1:] + races:            # keep the disk footprint small: digest now, delete the folders
+        e.digests = {i: B.folder_digest(os.path.join(e.root, "l%d" % i)) for i in range(len(e.contents))}
+        e.ran = B.ran_indices(e)
+        shutil.rmtree(e.root, ignore_errors=True)
+    ref.digests = {i: B.folder_digest(os.path.join(ref.root, "l%d" % i)) for i in range(len(ref.contents))}
+    ref.ran = B.ran_indices(ref)
+    shutil.rmtree(ref.root, ignore_errors=True)
+    return {"ref": ref, "execs": execs, "races": races, "batch": batch}
+
+
+def _run(ctx):
+    if "rounds" in _cache:
+        return _cache
+    rng = random.Random(ctx.seed)
+    binary = ctx.repo_bin("src/hermes2go", "hermes2go")
+    rbin = None
+    try:
+        rbin = ctx.repo_bin("src/hermes2go", "hermes2go", race=True)
     except BuildError as e:
         _cache["race_build_error"] = str(e)[-600:]
-    _cache.update(execs=execs, races=races, pool=pool, ref=ref, batch=batch, ex=ex)
+    ex = B.setup_examples(ctx)
+    pool = dict(B.VALID); pool["bad"] = B.FAILING["unknown-soil-id"]
+    if ctx.thorough:
+        pool.update(B.LONG)
+    rounds = [_round(ctx, j, rng, binary, rbin, ex, pool) for j in range(6 if ctx.thorough else 1)]
+    _cache.update(rounds=rounds, pool=pool, ex=ex)
     return _cache
 
 
 def correspond(ctx):
     c = Corr()
     r = _run(ctx)
-    ref = r["ref"]
-    if ref.died():
-        c.mismatches.append({"kind": "reference-run", "what": "concurrency-1 reference execution did not finish normally",
-                             "rc": ref.rc, "timed_out": ref.timed_out, "stderr": ref.stderr[-800:]})
-        return c
-    errs = {k: False for k in r["pool"]}
-    for i in ref.summary:
-        errs[ref.contents[i]] = True
-    allx = r["execs"] + r["races"]
-    done = [e for e in allx if not e.died()]
-    for e in allx:
-        if e.died():
-            c.mismatches.append({"kind": "execution", "tag": e.tag, "what": "process did not finish normally",
-                                 "rc": e.rc, "timed_out": e.timed_out, "stderr": e.stderr[-800:]})
-    bad, out = B.coq_dispatch_mismatches(ctx, "Cases_C03_dispatch", done, errs, ctx.seed)
-    if bad is None:
-        c.mismatches.append({"kind": "coq-eval", "output": out[-1500:]})
-    else:
-        for i in bad:
-            e = done[i]
-            c.mismatches.append({"kind": "dispatch", "tag": e.tag, "concurrency": e.c, "lines": e.lines_opt,
-                                 "what": "DispatchModel prediction (summary multiset / count / started lines) differs from the binary",
-                                 "observed_summary": e.summary, "observed_count": e.count, "observed_started": B.ran_indices(e),
-                                 "batch": e.contents})
-    c.cases = len(allx)
-    c.nontrivial = len({(e.c, e.gmp, tuple(e.contents), e.lines_opt) for e in done})
-    for e in allx:
-        c.bump("concurrency=%d" % e.c); c.bump("GOMAXPROCS=%d" % e.gmp)
-    c.dist["batch_lines"] = len(r["batch"]); c.dist["race_executions"] = len(r["races"])
-    c.samples = ["%s: c=%d GOMAXPROCS=%d lines=%s -> summary %s count %s started %d (%.1fs)" %
-                 (e.tag, e.c, e.gmp, e.lines_opt, e.summary, e.count, len(B.ran_indices(e)), e.wall) for e in allx[:6]]
+    for j, rd in enumerate(r["rounds"]):
+        ref = rd["ref"]
+        if ref.died():
+            c.mismatches.append({"kind": "reference-run", "what": "concurrency-1 reference execution did not finish normally",
+                                 "rc": ref.rc, "timed_out": ref.timed_out, "stderr": ref.stderr[-800:]})
+            continue
+        errs = {k: False for k in r["pool"]}
+        for i in ref.summary:
+            errs[ref.contents[i]] = True
+        allx = rd["execs"] + rd["races"]
+        done = [e for e in allx if not e.died()]
+        for e in allx:
+            if e.died():
+                c.mismatches.append({"kind": "execution", "tag": e.tag, "what": "process did not finish normally",
+                                     "rc": e.rc, "timed_out": e.timed_out, "stderr": e.stderr[-800:]})
+        bad, out = B.coq_dispatch_mismatches(ctx, "Cases_C03_dispatch_%d" % j, done, errs, ctx.seed + j)
+        if bad is None:
+            c.mismatches.append({"kind": "coq-eval", "output": out[-1500:]})
+        else:
+            for i in bad:
+                e = done[i]
+                c.mismatches.append({"kind": "dispatch", "tag": e.tag, "concurrency": e.c, "lines": e.lines_opt,
+                                     "what": "DispatchModel prediction (summary multiset / count / started lines) differs from the binary",
+                                     "observed_summary": e.summary, "observed_count": e.count, "observed_started": e.ran,
+                                     "batch": e.contents})
+        c.cases += len(allx)
+        c.nontrivial += len({(e.c, e.gmp, tuple(e.contents), e.lines_opt) for e in done})
+        for e in allx:
+            c.bump("concurrency=%d" % e.c); c.bump("GOMAXPROCS=%d" % e.gmp)
+        c.bump("batch_lines", len(rd["batch"])); c.bump("race_executions", len(rd["races"]))
+        if j == 0:
+            c.samples = ["%s: c=%d GOMAXPROCS=%d lines=%s -> summary %s count %s started %d (%.1fs)" %
+                         (e.tag, e.c, e.gmp, e.lines_opt, e.summary, e.count, len(e.ran), e.wall) for e in allx[:6]]
     if "race_build_error" in r:
         c.notes.append("race build failed: " + r["race_build_error"])
         if ctx.thorough:
@@ -211,45 +229,50 @@ def correspond(ctx):
 def oracle(ctx, search):
     r = _run(ctx)
     fails = []
-    ref, pool = r["ref"], r["pool"]
-    if ref.died():
-        return [Fail(key="reference-run:died", what="the concurrency-1 execution of the generated batch did not finish",
-                     batch=[pool[k] for k in ref.contents], rc=ref.rc, stderr=ref.stderr[-600:])]
-    refdig = {}
-    for i, k in enumerate(ref.contents):
-        d = B.folder_digest(os.path.join(ref.root, "l%d" % i))
-        if k in refdig and refdig[k] != d:
-            fails.append(Fail(key="nondeterminism:%s:repeated-line" % k, what="the same line twice in one batch gave different result files",
-                              line=pool[k]))
-        refdig[k] = d
-    compared = 0
-    for e in r["execs"][1:] + r["races"]:
-        if e.died():
-            fails.append(Fail(key="execution-died:c=%d" % e.c, what="batch execution did not finish normally",
-                              tag=e.tag, rc=e.rc, timed_out=e.timed_out, stderr=e.stderr[-600:],
-                              replay="cd <copy of examples>; GOMAXPROCS=%d hermes2go -module batch -concurrent %d -batch <file>" % (e.gmp, e.c),
-                              batch=[pool[k] for k in e.contents]))
+    pool = r["pool"]
+    compared = nrace = nreports = 0
+    for rd in r["rounds"]:
+        ref = rd["ref"]
+        if ref.died():
+            fails.append(Fail(key="reference-run:died", what="the concurrency-1 execution of the generated batch did not finish",
+                              batch=[pool[k] for k in ref.contents], rc=ref.rc, stderr=ref.stderr[-600:]))
             continue
-        s, n = B.window(e)
-        for i, k in enumerate(e.contents):
-            if i < s or (n > 0 and i >= n):
+        refdig = {}
+        for i, k in enumerate(ref.contents):
+            d = ref.digests[i]
+            if k in refdig and refdig[k] != d:
+                fails.append(Fail(key="nondeterminism:%s:repeated-line" % k, what="the same line twice in one batch gave different result files",
+                                  line=pool[k]))
+            refdig[k] = d
+        nrace += len(rd["races"])
+        for e in rd["execs"][1:] + rd["races"]:
+            replay = ("cd <copy of /repo/examples>; batch file lines: " + " || ".join(
+                "%s resultfolder=%s/l%d" % (pool[x], e.tag, i) for i, x in enumerate(e.contents)) +
+                " ; GOMAXPROCS=%d hermes2go%s -module batch -concurrent %d -batch <file>%s" % (
+                    e.gmp, " (built with -race)" if "race" in e.tag else "", e.c, (" -lines " + e.lines_opt) if e.lines_opt else ""))
+            if e.race_reports:
+                nreports += e.race_reports
+                m = re.search(r"WARNING: DATA RACE.*?\n\s+(\S+)\(", e.stderr, re.S)
+                fails.append(Fail(key="data-race:%s" % (m.group(1) if m else "?"), what="race detector report",
+                                  concurrency=e.c, report=e.stderr[e.stderr.find("WARNING: DATA RACE"):][:1500], replay=replay))
+            if e.died():
+                fails.append(Fail(key="execution-died:c=%d" % e.c, what="batch execution did not finish normally",
+                                  tag=e.tag, rc=e.rc, timed_out=e.timed_out, stderr=e.stderr[-600:], replay=replay))
                 continue
-            d = B.folder_digest(os.path.join(e.root, "l%d" % i))
-            compared += 1
-            if d != refdig[k]:
-                diff = sorted(f for f in set(d) | set(refdig[k]) if d.get(f) != refdig[k].get(f))
-                fails.append(Fail(key="nondeterminism:%s:%s" % (k, diff[0][:1] if diff else "?"),
-                                  what="result files differ from the concurrency-1 reference for the same batch line",
-                                  line=pool[k], files=diff[:6], concurrency=e.c, gomaxprocs=e.gmp, tag=e.tag,
-                                  replay="batch (each line + resultfolder=<own folder>): " + " || ".join(pool[x] for x in e.contents)))
-        if e.race_reports:
-            m = re.search(r"WARNING: DATA RACE.*?\n\s+(\S+)\(", e.stderr, re.S)
-            fails.append(Fail(key="data-race:%s" % (m.group(1) if m else "?"), what="race detector report",
-                              concurrency=e.c, report=e.stderr[e.stderr.find("WARNING: DATA RACE"):][:1500],
-                              batch=[pool[k] for k in e.contents]))
+            s, n = B.window(e)
+            for i, k in enumerate(e.contents):
+                if i < s or (n > 0 and i >= n):
+                    continue
+                d = e.digests[i]
+                compared += 1
+                if d != refdig[k]:
+                    diff = sorted(f for f in set(d) | set(refdig[k]) if d.get(f) != refdig[k].get(f))
+                    fails.append(Fail(key="nondeterminism:%s:%s" % (k, diff[0][:1] if diff else "?"),
+                                      what="result files differ from the concurrency-1 reference for the same batch line",
+                                      line=pool[k], files=diff[:6], concurrency=e.c, gomaxprocs=e.gmp, tag=e.tag, replay=replay))
     ctx.extra["result_folders_compared"] = compared
-    ctx.extra["race_detector_executions"] = len(r["races"])
-    ctx.extra["race_detector_reports"] = sum(e.race_reports for e in r["races"])
+    ctx.extra["race_detector_executions"] = nrace
+    ctx.extra["race_detector_reports"] = nreports
     seen = set(); uniq = []
     for f in fails:
         if f["key"] not in seen:
